@@ -123,10 +123,10 @@ PROPS = {
         explanation='Lattice kernels proved; access decisions bounded.',
     ),
     'C15': dict(
-        v=[], k=[('neumann_parser', ['c15_binding_power_matches_documented_levels'])], b=['c15_parser'],
+        v=[], k=[('neumann_parser', ['c15_binding_power_matches_documented_levels', 'c15_stmt_binding_power_matches_documented_levels'])], b=['c15_parser'],
         level='other',
-        technique='Kani full-domain harness on the Pratt binding-power table vs the documented precedence levels',
-        claim='binding-power table is order-isomorphic to the documented precedence, left-associative, prefix tighter than infix (Kani, complete)',
+        technique='Kani full-domain harnesses on both copies of the Pratt binding-power table (expression parser expr.rs, statement parser parser.rs) vs the documented precedence levels; bounded native checks of totality, determinism, depth guard and statement/expression agreement',
+        claim='both binding-power tables are order-isomorphic to the documented precedence, left-associative, prefix tighter than infix (Kani, complete)',
         explanation='Table proved; parser totality bounded.',
     ),
     'C17': dict(
